@@ -330,8 +330,18 @@ class Model:
 
     # -- exploration ----------------------------------------------------------------------------------
     def initial(self):
-        outs = self.exec_stmts(self.prog.init, {}, ONE, -1, ())
-        return self._merge(outs)
+        # values a variable holds only transiently inside the initial block (overwritten before the loop starts) are not
+        # "reached": the observation set starts from the states at the end of the block
+        saved, self.reach = self.reach, {}
+        try:
+            outs = self.exec_stmts(self.prog.init, {}, ONE, -1, ())
+        finally:
+            self.reach = saved
+        d = self._merge(outs)
+        for st, pr in d.values():
+            for var, val in st.items():
+                self.observe(var, val)
+        return d
 
     def _merge(self, outs):
         d = {}
